@@ -1,8 +1,10 @@
 verus! {
 // ---------------------------------------------------------------- crate::block::Block (wraps wide::u8x16): opaque.
 // `blk(b)` is the block read as a native-endian u128, i.e. what `u128::from(b)` returns. The facts below are
-// ASSUMED (block.rs is SIMD / bytemuck code outside the dialect); `block_to_u128` is pinned by a complete Kani
-// harness (kani/harness/otblock.toml), the others are one-line wrappers around u8x16 / to_ne_bytes.
+// assume_specifications for Verus (block.rs is SIMD / bytemuck code outside its dialect); each of them is DECIDED on
+// the real impls, for all 2^128 values, by the complete Kani harnesses of kani/harness/block_facts.toml
+// (xor_is_u128_xor, from_u128_roundtrip, default_is_zero, from_bytes_is_ne_u128, eq_is_value_eq) and otblock.toml.
+// What stays trusted is the correspondence between the two statements of the same fact.
 #[verifier::external_type_specification]
 #[verifier::external_body]
 pub struct ExBlock(crate::block::Block);
